@@ -65,7 +65,7 @@ fn expected(bytes: &[u8], filter: Option<Filter>, skip: bool) -> Expected {
     }
 }
 
-fn filter_class(f: Option<Filter>) -> &'static str {
+pub fn filter_class(f: Option<Filter>) -> &'static str {
     match f {
         None => "nofilter",
         Some(Filter::Link(_)) => "link-filter",
@@ -350,7 +350,7 @@ pub fn expected_rdh_tokens(r: &Rdh) -> Vec<String> {
     line.split_whitespace().map(|s| s.to_string()).collect()
 }
 
-fn filter_args(f: Option<Filter>) -> Vec<String> {
+pub fn filter_args(f: Option<Filter>) -> Vec<String> {
     match f {
         None => vec![],
         Some(Filter::Link(l)) => vec!["--filter-link".into(), l.to_string()],
